@@ -59,6 +59,10 @@ def run(ctx):
             if recs is None:
                 recs = open(tpath).read().splitlines()
             e = json.loads(recs[line - 1])
+            if e.get("t") == "replay":
+                ctx.violation("%s: the same valid %s of authority %d delivered three times, plus authority %d's, produced a certificate (committee %s)" % (
+                    vname, e["what"], e["first"], e["second"], name), "%s:%s" % (vname, e["what"]), {"monitor": vname, "committee_stakes": stakes, "record": e})
+                continue
             ctx.violation("%s: case %s/%s (committee %s): real verify() accepted=%s, node changed=%s effects=%s" % (
                 vname, e["c"]["kind"], e["c"]["m"], name, e["accepted"], e["node_changed"], e["node_effects"]),
                 "%s:%s:%s" % (vname, e["c"]["kind"], e["c"]["m"]), {"monitor": vname, "committee_stakes": stakes, "record": e})
